@@ -170,7 +170,14 @@ func TestE3Leader(t *testing.T) {
 					what = "submit"
 					line = fmt.Sprintf("SUBMIT | %d | %s | data=%d", now, mnode, nextTag)
 					newFut = &lfut{kind: "rep"}
-					fut := node.R.SubmitOperation([]byte(strconv.FormatUint(nextTag, 10)), raft.Replicated, time.Hour)
+					buf := []byte(strconv.FormatUint(nextTag, 10))
+					fut := node.R.SubmitOperation(buf, raft.Replicated, time.Hour)
+					// the caller's buffer is the caller's again once the call has returned (a re-used encoding
+					// buffer): overwriting it must not change the operation that was submitted
+					for i := range buf {
+						buf[i] = '7'
+					}
+					rep.Hit("submitted-buffer-overwritten")
 					go func(f *lfut) {
 						res := fut.Await()
 						f.mu.Lock()
